@@ -78,6 +78,9 @@ func (f *SharedInitialize) Call(s *slip.Scope, args slip.List, depth int) slip.O
 type defaultSharedInitializeCaller struct{}
 
 func (defaultSharedInitializeCaller) Call(s *slip.Scope, args slip.List, depth int) slip.Object {
+	if len(args) < 3 {
+		slip.ErrorPanic(s, depth, "Too few arguments to shared-initialize. 3 expected but got %d.", len(args))
+	}
 	obj, ok := args[0].(*StandardObject)
 	if !ok {
 		return nil
